@@ -386,6 +386,6 @@ def validate(seed, tier):
 
 MANIFEST_ENTRY = {
     "level_text": "Bounded symbolic execution of the real control skeleton of CphotAng.run with a symbolic cloud-top altitude (helpers uninterpreted, K=3/4 segments): below the first segment the outputs are term-identical to the cloud-free run (hence bit-identical under any interpretation of the arithmetic), above the penultimate segment exactly (0,0), in between equal to the cloud-free pipeline with the yield of every segment strictly below the cloud top removed; the real CloudTopHeight dispatch and closures for None/NoCloud/MonoCloud (constant in location); the real pressure-map lookup on a symbolic small map for every location on the sphere (value must be the standard-atmosphere altitude of a node bracketing degrees(lat), degrees(long) on the code's own grids); month -> file name for all 12 months.",
-    "level_note": "REAL arithmetic; photon-yield helpers and the pressure->altitude conversion are uninterpreted functions; small symbolic map instead of the 361x576 shipped maps; lenient cell convention (any bracketing node).",
+    "level_note": "Includes C08's EAS.__call__ job with N=3 (the event's own latitude and longitude reach the cloud model: the five kernel inputs are aligned). REAL arithmetic; photon-yield helpers and the pressure->altitude conversion are uninterpreted functions; small symbolic map instead of the 361x576 shipped maps; lenient cell convention (any bracketing node).",
     "technique": "symbolic execution of the real NumPy source + z3 qfnra-nlsat; term identity for the bit-identical clause",
 }
